@@ -17,7 +17,7 @@ IO = "io"  # blocked_on marker for idle waits of the event loops
 
 
 class SimThread:
-    __slots__ = ("sid", "name", "state", "gate", "blocked_on", "deadline", "threadobj", "wake_reason", "consec", "prio", "steps", "is_main", "joiners")
+    __slots__ = ("sid", "name", "state", "gate", "blocked_on", "deadline", "threadobj", "wake_reason", "consec", "prio", "steps", "is_main", "joiners", "ready_since", "quantum")
 
     def __init__(self, sid, name, threadobj=None):
         self.sid = sid
@@ -34,6 +34,8 @@ class SimThread:
         self.steps = 0
         self.is_main = False
         self.joiners = []
+        self.ready_since = 0
+        self.quantum = 0
 
     def __repr__(self):
         return "<sim %d %s %s>" % (self.sid, self.name, self.state)
@@ -70,6 +72,7 @@ class Scheduler:
         self.last_where = None
         self.aborting = False
         self.starve_limit = 400
+        self.quantum_len = 150
         self.marker_hooks = []
 
     # -- identity --------------------------------------------------------
@@ -112,6 +115,7 @@ class Scheduler:
         """The OS thread exists (parked on its gate): it may be scheduled now."""
         if st.state == NEW:
             st.state = RUNNABLE
+            st.ready_since = self.steps
 
     def child_enter(self, st):
         st.gate.acquire()  # wait for the first baton
@@ -138,6 +142,7 @@ class Scheduler:
         if len(self.switch_pairs) < 5000:
             self.switch_pairs.add(pair)
         cur.consec = 0
+        cur.ready_since = self.steps
         nxt.gate.release()
         if park:
             cur.gate.acquire()
@@ -150,17 +155,20 @@ class Scheduler:
         for t in self.threads:
             if t.state == BLOCKED and t.deadline is not None and t.deadline <= now:
                 t.state = RUNNABLE
+                t.ready_since = self.steps
                 t.wake_reason = "timeout"
 
     def wake(self, st, reason):
         if st.state == BLOCKED:
             st.state = RUNNABLE
+            st.ready_since = self.steps
             st.wake_reason = reason
 
     def notify_io(self):
         for t in self.threads:
             if t.state == BLOCKED and t.blocked_on is IO:
                 t.state = RUNNABLE
+                t.ready_since = self.steps
                 t.wake_reason = "io"
 
     def _pick_next(self, cur):
@@ -200,11 +208,31 @@ class Scheduler:
             return
         cur.consec += 1
         strat = self.strategy
-        k = self.tape.take(len(cands) + 1, (lambda rng: strat.preempt(self, rng, cur, cands, where)) if strat else None)
+        k = self.tape.take(len(cands) + 1, (lambda rng: self._propose_preempt(strat, rng, cur, cands, where)) if strat else None)
         if k:
             self._handoff(cur, cands[k - 1])
             if self.sigint_pending and cur.is_main:
                 self._deliver_sigint()
+
+    def _propose_preempt(self, strat, rng, cur, cands, where):
+        """Search mode only. Weak fairness first (a real OS scheduler does not starve a runnable
+        thread for ever; the liveness oracles rely on that), then the strategy."""
+        if cur.quantum > 0:
+            # time slice granted by the fairness rule below: not pre-empted before it is used up
+            cur.quantum -= 1
+            return 0
+        lim = self.starve_limit
+        worst = None
+        steps = self.steps
+        for i, c in enumerate(cands):
+            w = steps - c.ready_since
+            if w > lim and (worst is None or w > worst[0]):
+                worst = (w, i)
+        if worst is not None:
+            self.probe("fairness-forced-switch")
+            cands[worst[1]].quantum = self.quantum_len
+            return worst[1] + 1
+        return strat.preempt(self, rng, cur, cands, where)
 
     def block(self, cur, on, deadline):
         """Park `cur` until woken or until the virtual deadline. Returns the wake reason."""
@@ -242,6 +270,8 @@ class Scheduler:
     def busy_poll(self, cur, which):
         """A loop iteration that found work: costs `delta` virtual seconds."""
         self.now += self.delta
+        if self.now > self.horizon:
+            self.abort("horizon")
         self._expire()
         self.yield_point(("poll", which))
 
@@ -279,6 +309,25 @@ class Scheduler:
         handler(signal.SIGINT, None)
 
     # -- end of run --------------------------------------------------------
+    def thread_dump(self):
+        import traceback
+
+        frames = sys._current_frames()
+        out = []
+        for t in self.threads:
+            ident = getattr(t.threadobj, "ident", None) if t.threadobj is not None else None
+            if t.is_main:
+                import threading
+
+                ident = threading.main_thread().ident
+            stack = []
+            fr = frames.get(ident)
+            if fr is not None:
+                for fs in traceback.extract_stack(fr)[-14:]:
+                    stack.append("%s:%d:%s" % (fs.filename.split("/")[-1], fs.lineno, fs.name))
+            out.append({"sid": t.sid, "name": t.name, "state": t.state, "prio": t.prio, "consec": t.consec, "steps": t.steps, "on": (t.blocked_on if isinstance(t.blocked_on, str) else type(t.blocked_on).__name__), "deadline": t.deadline, "stack": stack})
+        return out
+
     def abort(self, reason):
         """End the run from whichever thread noticed; never returns."""
         self.aborting = True
